@@ -177,20 +177,49 @@ Proof.
   - rewrite IH by assumption. unfold enc_value. rewrite String.eqb_sym, E. reflexivity.
 Qed.
 
+(* ---- Status.__init__ strips every value; statusFromFile then restores the error description *)
+Definition stripv (kv : string * string) : string * string := (fst kv, strip (snd kv)).
+
+Lemma lookup_stripv k s : lookup k (map stripv s) = option_map strip (lookup k s).
+Proof.
+  induction s as [|[q w] r IH]; [reflexivity|]. cbn [map]. change (stripv (q, w)) with (q, strip w). cbn [lookup].
+  destruct (String.eqb k q); [reflexivity|exact IH].
+Qed.
+
+Lemma stripv_id s : (forall k v, In (k, v) s -> strip v = v) -> map stripv s = s.
+Proof.
+  induction s as [|[k v] r IH]; intros H; [reflexivity|]. cbn [map]. change (stripv (k, v)) with (k, strip v).
+  rewrite (H k v) by (left; reflexivity). rewrite IH; [reflexivity|]. intros q w Hin. apply (H q w). right. exact Hin.
+Qed.
+
+Lemma restore_ed s v : NoDup (map fst s) -> lookup ED s = Some v ->
+  (forall k w, In (k, w) s -> k <> ED -> strip w = w) -> dict_set ED v (map stripv s) = s.
+Proof.
+  induction s as [|[k w] r IH]; [intros _ H; discriminate H|]. cbn [map fst lookup]. intros ND H Hs.
+  inversion ND as [|? ? Hn ND']; subst.
+  change (stripv (k, w)) with (k, strip w). cbn [dict_set].
+  destruct (String.eqb ED k) eqn:E.
+  - apply String.eqb_eq in E. subst k. inversion H. subst w. rewrite stripv_id; [reflexivity|].
+    intros q u Hin. apply (Hs q u); [right; exact Hin|]. intros E. subst q. apply Hn. apply (in_map fst) in Hin. exact Hin.
+  - apply String.eqb_neq in E. rewrite (Hs k w) by (try (left; reflexivity); congruence).
+    rewrite IH; [reflexivity|exact ND'|exact H|]. intros q u Hin. apply (Hs q u). right. exact Hin.
+Qed.
+
 (* ---- the guard *)
 Definition key_ok (k : string) : Prop := all_chars key_char k = true.
+(* error-description: ANY text; any other value: no outer white space, no line break *)
 Definition value_ok (k v : string) : Prop :=
-  strip v = v /\ (k <> ED -> all_chars clean v = true).
+  k <> ED -> strip v = v /\ all_chars clean v = true.
 Definition pairs_ok (d : list (string * string)) : Prop :=
   NoDup (map fst d) /\ In "stages" (map fst d) /\ forall k v, In (k, v) d -> key_ok k /\ value_ok k v.
 
 Lemma line_clean k v : key_ok k -> value_ok k v -> all_chars clean (line' (k, v)) = true.
 Proof.
-  intros Hk [_ Hv]. unfold line'. cbn [fst snd]. rewrite all_chars_app. apply andb_true_iff. split.
+  intros Hk Hv. unfold line'. cbn [fst snd]. rewrite all_chars_app. apply andb_true_iff. split.
   - eapply all_chars_impl; [|exact Hk]. intros c Hc. apply key_char_facts. exact Hc.
   - cbn [all_chars]. apply andb_true_iff. split; [reflexivity|]. unfold enc_value. destruct (String.eqb k ED) eqn:E.
     + eapply all_chars_impl; [apply printable_clean|apply escape_printable].
-    + apply String.eqb_neq in E. exact (Hv E).
+    + apply String.eqb_neq in E. exact (proj2 (Hv E)).
 Qed.
 
 Lemma text_lines s : (forall kv, In kv s -> all_chars clean (line' kv) = true) ->
@@ -231,26 +260,29 @@ Proof.
     - rewrite map_map. erewrite map_ext; [exact ND|]. intros [k v]. reflexivity.
     - intros k _ []. }
   unfold status_parse. rewrite R. rewrite lookup_encp.
-  assert (R' : match option_map escape (lookup ED s) with
-               | Some e => option_map (fun e' => dict_set ED e' (map encp s)) (unescape e)
-               | None => Some (map encp s)
-               end = Some s).
-  { destruct (lookup ED s) as [v|] eqn:L; cbn [option_map].
-    - rewrite unescape_escape. cbn [option_map]. rewrite dict_set_decode; [reflexivity|exact ND|exact L].
-    - rewrite encp_id; [reflexivity|apply lookup_none; exact L]. }
-  rewrite R'.
-  destruct (lookup_in "stages" s Hst) as [st Lst]. rewrite Lst.
-  assert (N : normalise s = s).
+  destruct (lookup_in "stages" s Hst) as [st Lst].
+  assert (Sst : strip st = st).
+  { destruct (Hok "stages" st (lookup_In _ _ _ Lst)) as [_ Hv]. apply Hv. discriminate. }
+  assert (Hs : forall k v, In (k, v) s -> k <> ED -> strip v = v).
+  { intros k v Hin Hk. destruct (Hok k v Hin) as [_ Hv]. apply (Hv Hk). }
+  assert (N : normalise s = map stripv s).
   { unfold normalise.
     pose (h := fun kv : string * string => Some (lower_l1 (strip (fst kv)), strip (snd kv))).
     change (fold_left (fun d kv => dict_set (lower_l1 (strip (fst kv))) (strip (snd kv)) d) s [])
       with (fold_left (fun d kv => match h kv with Some (k, v) => dict_set k v d | None => d end) s []).
-    rewrite (fold_pairs h s s); [reflexivity| |exact ND|intros k _ []].
-    apply map_ext_in. intros [k v] Hin. unfold h. cbn [fst snd]. destruct (Hok k v Hin) as [Hk [Hv _]].
-    rewrite strip_id by (eapply all_chars_impl; [|exact Hk]; intros c Hc; apply key_char_facts; exact Hc).
-    rewrite lower_id by exact Hk. rewrite Hv. reflexivity. }
-  rewrite N. f_equal. apply dict_set_same.
-  destruct (Hok "stages" st (lookup_In _ _ _ Lst)) as [_ [Hv _]]. rewrite Hv. exact Lst.
+    rewrite (fold_pairs h s (map stripv s)); [reflexivity| | |intros k _ []].
+    - rewrite map_map. apply map_ext_in. intros [k v] Hin. unfold h, stripv. cbn [fst snd]. destruct (Hok k v Hin) as [Hk _].
+      rewrite strip_id by (eapply all_chars_impl; [|exact Hk]; intros c Hc; apply key_char_facts; exact Hc).
+      rewrite lower_id by exact Hk. reflexivity.
+    - rewrite map_map. erewrite map_ext; [exact ND|]. intros [k v]. reflexivity. }
+  assert (L2 : lookup "stages" (map stripv s) = Some st).
+  { rewrite lookup_stripv, Lst. cbn [option_map]. rewrite Sst. reflexivity. }
+  destruct (lookup ED s) as [v|] eqn:L; cbn [option_map].
+  - rewrite unescape_escape. cbv zeta. rewrite (dict_set_decode s v ND L). rewrite Lst, N, Sst.
+    rewrite (dict_set_same "stages" st _ L2). f_equal. apply restore_ed; assumption.
+  - rewrite encp_id by (apply lookup_none; exact L). rewrite Lst, N, Sst.
+    rewrite (dict_set_same "stages" st _ L2). f_equal. apply stripv_id. intros k v Hin. apply (Hs k v Hin).
+    intros E. subst k. apply (lookup_none _ _ L). apply (in_map fst) in Hin. exact Hin.
 Qed.
 
 (* ---- sorting *)
@@ -269,12 +301,10 @@ Qed.
 
 Lemma pairs_ok_perm d d' : Permutation d d' -> pairs_ok d -> pairs_ok d'.
 Proof.
-  intros P [ND [Hs Hok]]. repeat split.
+  intros P [ND [Hs Hok]]. split; [|split].
   - eapply Permutation_NoDup; [apply Permutation_map; exact P|exact ND].
   - eapply Permutation_in; [apply Permutation_map; exact P|exact Hs].
-  - apply (Hok k v). eapply Permutation_in; [apply Permutation_sym; exact P|exact H].
-  - apply (Hok k v). eapply Permutation_in; [apply Permutation_sym; exact P|exact H].
-  - apply (Hok k v). eapply Permutation_in; [apply Permutation_sym; exact P|exact H].
+  - intros k v H. apply (Hok k v). eapply Permutation_in; [apply Permutation_sym; exact P|exact H].
 Qed.
 
 Lemma lookup_perm k l l' : Permutation l l' -> NoDup (map fst l) -> lookup k l = lookup k l'.
@@ -333,4 +363,79 @@ Proof.
   - intros x [<-|[]]. discriminate.
   - exists t. split; [rewrite A; exact R|left; exact P].
   - exists c. split; [exact A|right]. destruct Hx as [<-|[]]. subst c. apply codec_roundtrip. exact H'.
+Qed.
+
+(* ================================================================ histories with any number of faulted updates *)
+(* one attempted update = the values it writes and the fault (NoFault = it completes) that hits it; after a
+   fault the updater's own error handling runs (part of [exec]), the object keeps running / is re-created by
+   a restart that reads the file, and the next attempt follows *)
+Definition attempt := (list (string * string) * fault)%type.
+Definition run_attempts (l : list attempt) (s : fs) : fs :=
+  fold_left (fun s a => run (exec (status_update (fst a)) true (snd a)) s) l s.
+
+(* the value sets the file may hold afterwards: those of the last completed update, or of a faulted update
+   that came after it (a fault after the rename, or none of the operations was reached) *)
+Fixpoint candidates (acc : list (list (string * string))) (l : list attempt) : list (list (string * string)) :=
+  match l with
+  | [] => acc
+  | (d, NoFault) :: r => candidates [d] r
+  | (d, _) :: r => candidates (d :: acc) r
+  end.
+
+Lemma candidates_snoc_complete l d : forall acc, candidates acc (l ++ [(d, NoFault)]) = [d].
+Proof.
+  induction l as [|[d' f] r IH]; intros acc; [reflexivity|].
+  cbn [app candidates]. destruct f; apply IH.
+Qed.
+
+Lemma candidates_sub l : forall acc d, In d (candidates acc l) -> In d acc \/ In d (map fst l).
+Proof.
+  induction l as [|[d' f] r IH]; intros acc d H; [left; exact H|]. cbn [candidates] in H. cbn [map fst].
+  destruct f; apply IH in H as [H|H]; try (right; right; exact H).
+  - destruct H as [<-|[]]. right. left. reflexivity.
+  - destruct H as [<-|H]; [right; left; reflexivity|left; exact H].
+  - destruct H as [<-|H]; [right; left; reflexivity|left; exact H].
+Qed.
+
+Lemma attempt_step d' f s t : read "status.txt" s = Some t ->
+  let s' := run (exec (status_update d') true f) s in
+  (f = NoFault -> read "status.txt" s' = Some (status_print d')) /\
+  (read "status.txt" s' = Some t \/ read "status.txt" s' = Some (status_print d')).
+Proof.
+  intros R s'. split.
+  - intros ->. apply status_update_complete.
+  - destruct (exec_atomic (status_update d') (status_update_good d') "status.txt") with (b := true) (f := f) (s := s)
+      as [A|[c [A [x [b [Hx [_ Hc]]]]]]].
+    + intros x [<-|[]]. discriminate.
+    + left. unfold s'. rewrite A. exact R.
+    + right. destruct Hx as [<-|[]]. subst c. exact A.
+Qed.
+
+Theorem attempts_text l : forall acc s,
+  (exists d, In d acc /\ read "status.txt" s = Some (status_print d)) ->
+  exists d, In d (candidates acc l) /\ read "status.txt" (run_attempts l s) = Some (status_print d).
+Proof.
+  induction l as [|[d' f] r IH]; intros acc s H; [exact H|].
+  destruct H as [d [Hin R]].
+  destruct (attempt_step d' f s _ R) as [S1 S2].
+  change (run_attempts ((d', f) :: r) s) with (run_attempts r (run (exec (status_update d') true f) s)).
+  cbn [candidates]. destruct f as [|k j|k j].
+  - apply IH. exists d'. split; [left; reflexivity|apply S1; reflexivity].
+  - apply IH. destruct S2 as [S2|S2]; [exists d|exists d']; (split; [|exact S2]); [right; exact Hin|left; reflexivity].
+  - apply IH. destruct S2 as [S2|S2]; [exists d|exists d']; (split; [|exact S2]); [right; exact Hin|left; reflexivity].
+Qed.
+
+Theorem history_attempts ds d0 l s : pairs_ok d0 -> Forall (fun a : attempt => pairs_ok (fst a)) l ->
+  exists d, In d (candidates [d0] l) /\
+    read "status.txt" (run_attempts l (run (status_history_ops (ds ++ [d0])) s)) = Some (status_print d) /\
+    status_parse (status_print d) = Some (sort_keys d) /\ forall k, lookup k (sort_keys d) = lookup k d.
+Proof.
+  intros H0 Hl.
+  destruct (attempts_text l [d0] (run (status_history_ops (ds ++ [d0])) s)) as [d [Hin R]].
+  - exists d0. split; [left; reflexivity|].
+    unfold status_history_ops. rewrite flat_map_app, run_app. cbn [flat_map]. rewrite app_nil_r.
+    apply status_update_complete.
+  - exists d. split; [exact Hin|split; [exact R|]]. apply codec_roundtrip.
+    apply candidates_sub in Hin as [[<-|[]]|Hin]; [exact H0|].
+    apply in_map_iff in Hin as [a [<- Ha]]. rewrite Forall_forall in Hl. apply (Hl a Ha).
 Qed.
